@@ -8,7 +8,7 @@ from __future__ import annotations
 from ..alpha import CONFIGS_QUICK, CONFIGS_THOROUGH, only_elements, valid_trees
 from ..ref.layout import ref_render_list, ref_render_tag
 from ..space import Const, Seq
-from ..spec import B, I, Vb, Vi, E, T, H, R, M, build
+from ..spec import deref, B, I, Vb, Vi, E, T, H, R, M, build
 
 ID = "C06"
 LEVEL = "model_checking"
@@ -54,7 +54,7 @@ def make_fn(configs, toplist=False):
             if toplist:
                 exp = ref_render_list(case, indent, eol)
             else:
-                exp = ref_render_tag(case, indent, eol)
+                exp = ref_render_tag(deref(case), indent, eol)
             if eol == "\n" and indent == 0:
                 nontriv = exp.count("\n") >= 2
                 outcome.append(exp)
@@ -114,7 +114,58 @@ def deep_cases(max_depth):
     return out
 
 
+def same_object_cases(nmax):
+    """child lists in which ONE tag object occurs more than once (at a line start and inside an inline run)."""
+    import itertools
+    items = {"I": I([T("i")]), "I2": E("em", False, [T("e"), E("b", False, [T("bb")])]), "B": B([T("b")]), "T": T("t"),
+             "Bk": B([I([T("k")]), T("u")])}
+    out = []
+    for n in range(2, nmax + 1):
+        for seq in itertools.product(["I", "I2", "B", "Bk", "T", "R0", "R1"], repeat=n):
+            ok = any(x.startswith("R") for x in seq)
+            kids = []
+            for pos, x in enumerate(seq):
+                if x.startswith("R"):
+                    k = int(x[1])
+                    if k >= pos or seq[k] in ("T",) or seq[k].startswith("R"):
+                        ok = False
+                        break
+                    kids.append(["REF", k])
+                else:
+                    kids.append(items[x])
+            if ok:
+                out.append(B(kids))
+                out.append(B([B(kids), T("after")]))
+                if not any(x in ("B", "Bk") for x in seq):
+                    out.append(I(kids))
+    return out
+
+
 def plan(tier):
+    return plan0(tier) + plan_more(tier)
+
+
+def plan_more(tier):
+    configs = (CONFIGS_QUICK if tier == "quick" else CONFIGS_THOROUGH) + EXTRA_EOL
+    fn_tag = make_fn(configs)
+    fn_list = make_fn(configs, toplist=True)
+    wsl = [T(" "), T("\t"), T("\u3000"), T("\n"), T("a"), M, H(" ")]
+    _, blkw = valid_trees(wsl, wsl, [I], [B], 1, 3)
+    _, blkw1 = valid_trees(wsl[:4] + [T("a")], wsl[:4] + [T("a")], [I], [B], 1, 1)
+    so = same_object_cases(3 if tier == "quick" else 4)
+    return [
+        dict(kind="space", name="whitespace-only-text-children", space=only_elements(blkw), fn=fn_tag,
+             note="text children consisting only of a blank, a tab, U+3000 or a line feed are text like any other: first "
+                  "child, after a block sibling, inside runs (depth 1, fan-out <= 3)"),
+        dict(kind="space", name="whitespace-only-text-toplist", space=Seq(blkw1, 1, 3), fn=fn_list,
+             note="the same in top-level lists of 1..3 items"),
+        dict(kind="space", name="same-tag-object-twice-among-siblings", space=Const(so), fn=fn_tag,
+             note=f"{len(so)} child lists in which one Tag object occurs twice (once starting a layout line, once inside an "
+                  "inline run, or under different parents' indentation), rendered directly with get_html_string()"),
+    ]
+
+
+def plan0(tier):
     configs = (CONFIGS_QUICK if tier == "quick" else CONFIGS_THOROUGH) + EXTRA_EOL
     fn_tag = make_fn(configs)
     fn_list = make_fn(configs, toplist=True)
